@@ -240,3 +240,10 @@ package keeper
 //@ modifies Store_bandtss
 //@ ensures err == nil ==> Store_bandtss == store(old(Store_bandtss), types.ParamsKey, enc(p)) && p.RewardPercentage <= 100
 //@ ensures err != nil ==> Store_bandtss == old(Store_bandtss)
+
+// ---- frame of the store invariants: each record family is written only through these functions ------------------------
+// (the invariants above are proved writer by writer - "a lock has its index entry", "a record is filed under its own id";
+// a new function that Sets or Deletes such keys directly is outside that argument: ground obligation `writers/...`)
+//@ writers MemberStoreKey: Keeper.DeleteMember, Keeper.SetMember
+//@ writers SigningIDMappingStoreKey: Keeper.DeleteSigningIDMapping, Keeper.SetSigningIDMapping
+//@ writers SigningInfoStoreKey: Keeper.SetSigning
